@@ -59,6 +59,7 @@ Explained(pre, line, post) ==
 
 Verdict(pre, line, post) ==
   [fail |-> StepFail(pre, line.ev, line.args, line.res, post)
+            \cup ExtFail(pre, line.ev, line.args, line.res, post)
             \cup FailIf("drift.step", Explained(pre, line, post)),
    ex |-> StepEx(pre, line.ev, line.args, line.res, post)]
 
